@@ -34,6 +34,30 @@ pub fn set_fd_table(fds: &[UnixFd]) {
     *FD_TABLE.lock().unwrap() = fds.iter().filter_map(|f| f.get_raw_fd()).collect();
 }
 
+thread_local! {
+    /// the message body the B* operations work on (C15)
+    pub static BODY: std::cell::RefCell<rustbus::message_builder::MarshalledMessage> =
+        std::cell::RefCell::new(rustbus::message_builder::MarshalledMessage::new());
+    /// a parser over a leaked snapshot of BODY (P* operations)
+    pub static PARSER: std::cell::RefCell<Option<rustbus::message_builder::MessageBodyParser<'static>>> =
+        std::cell::RefCell::new(None);
+}
+pub fn body_state() -> String {
+    BODY.with(|b| {
+        let b = b.borrow();
+        format!("sig={} buf={} nfds={}", crate::hex(b.get_sig().as_bytes()), crate::hex(b.get_buf()), b.body.get_fds().len())
+    })
+}
+pub fn parser_state() -> String {
+    PARSER.with(|p| {
+        let p = p.borrow();
+        match p.as_ref() {
+            Some(p) => format!("next={} left={}", p.get_next_sig().map(|s| crate::hex(s.as_bytes())).unwrap_or("none".into()), p.sigs_left()),
+            None => "noparser".to_string(),
+        }
+    })
+}
+
 pub struct Args<'a> {
     toks: Vec<&'a str>,
     pos: usize,
@@ -491,6 +515,75 @@ where
             };
             set_fd_table(&[]);
             res
+        }
+        // ---- C15: operations on the thread-local body / parser
+        // BPUSH <value> | BPUSHV <value> | BPUSHN <k> <v1..vk>   (k = 2..5: push_param<k>, otherwise push_params)
+        "BPUSH" => {
+            let v = T::from_tok(a);
+            let r = BODY.with(|b| b.borrow_mut().body.push_param(&v));
+            format!("{} {}", if r.is_ok() { "ok" } else { "err" }, body_state())
+        }
+        "BPUSHV" => {
+            let v = T::from_tok(a);
+            let r = BODY.with(|b| b.borrow_mut().body.push_variant(&v));
+            format!("{} {}", if r.is_ok() { "ok" } else { "err" }, body_state())
+        }
+        "BPUSHN" => {
+            let k = a.num() as usize;
+            let vs: Vec<T> = (0..k).map(|_| T::from_tok(a)).collect();
+            let r = BODY.with(|b| {
+                let mut m = b.borrow_mut();
+                match k {
+                    2 => m.body.push_param2(&vs[0], &vs[1]),
+                    3 => m.body.push_param3(&vs[0], &vs[1], &vs[2]),
+                    4 => m.body.push_param4(&vs[0], &vs[1], &vs[2], &vs[3]),
+                    5 => m.body.push_param5(&vs[0], &vs[1], &vs[2], &vs[3], &vs[4]),
+                    _ => m.body.push_params(&vs),
+                }
+            });
+            format!("{} {}", if r.is_ok() { "ok" } else { "err" }, body_state())
+        }
+        // PGET | PGETN <k>: get::<T>() / get<k>::<T,..,T>() on the thread-local parser
+        "PGET" => PARSER.with(|p| {
+            let mut p = p.borrow_mut();
+            let p = p.as_mut().unwrap();
+            let res = match p.get::<T>() {
+                Ok(x) => {
+                    let mut out = Vec::new();
+                    x.to_tok(&mut out, true);
+                    format!("ok {}", out.join(" "))
+                }
+                Err(rustbus::wire::errors::UnmarshalError::WrongSignature) => "wrongsig".to_string(),
+                Err(rustbus::wire::errors::UnmarshalError::EndOfMessage) => "end".to_string(),
+                Err(_) => "err".to_string(),
+            };
+            res
+        }) + " " + &parser_state(),
+        "PGETN" => {
+            let k = a.num();
+            PARSER.with(|p| {
+                let mut p = p.borrow_mut();
+                let p = p.as_mut().unwrap();
+                fn show<X: Tok>(xs: &[&X]) -> String {
+                    let mut out = Vec::new();
+                    for x in xs {
+                        x.to_tok(&mut out, true);
+                    }
+                    format!("ok {}", out.join(" "))
+                }
+                let r = match k {
+                    2 => p.get2::<T, T>().map(|(a, b)| show(&[&a, &b])),
+                    3 => p.get3::<T, T, T>().map(|(a, b, c)| show(&[&a, &b, &c])),
+                    4 => p.get4::<T, T, T, T>().map(|(a, b, c, d)| show(&[&a, &b, &c, &d])),
+                    _ => p.get5::<T, T, T, T, T>().map(|(a, b, c, d, e)| show(&[&a, &b, &c, &d, &e])),
+                };
+                match r {
+                    Ok(s) => s,
+                    Err(rustbus::wire::errors::UnmarshalError::WrongSignature) => "wrongsig".to_string(),
+                    Err(rustbus::wire::errors::UnmarshalError::EndOfMessage) => "end".to_string(),
+                    Err(_) => "err".to_string(),
+                }
+            }) + " " + &parser_state()
         }
         _ => "NOOP".to_string(),
     }
